@@ -318,6 +318,13 @@ func (pc *packetConn) Read(b []byte) (n int, err error) {
 	if pc.idleTimer == nil {
 		pc.idleTimer = time.NewTimer(udpAssociationIdleTimeout)
 	} else {
+		// a tick that fired while nobody was reading is not the idleness of this wait
+		if !pc.idleTimer.Stop() {
+			select {
+			case <-pc.idleTimer.C:
+			default:
+			}
+		}
 		pc.idleTimer.Reset(udpAssociationIdleTimeout)
 	}
 	var done bool
